@@ -122,7 +122,7 @@ func readIdx(fn string) []idxEntry {
 	return out
 }
 
-var resources = []string{"a", "bb", "res c", "日本語 リソース", strings.Repeat("x", 200), "a/b?c=d&e", "tab\there"}
+var resources = []string{"a", "bb", "res c", "日本語 リソース", strings.Repeat("x", 200), "a/b?c=d&e", "tab\there", "a", "bb", strings.Repeat("long-resource-name/", 500)} // the last one: a 9.5 KB name (a line longer than any fixed read buffer)
 
 func drawItems(t *rapid.T) []*base.MetricItem {
 	n := rapid.IntRange(1, 3).Draw(t, "nitems")
